@@ -87,6 +87,11 @@ func (g *Global) aboveLocked(root *types.Package) map[*types.Package]bool {
 		if !g.inRepo(p.Pkg) || p.Pkg == root {
 			continue
 		}
+		// the engine's own packages (internal/...: actions, operators, body processors, ...) are called back through
+		// the plugin interfaces although they import the engine: only connector-level packages are "above"
+		if strings.Contains(p.Pkg.Path(), "/internal/") {
+			continue
+		}
 		if imports(p.Pkg, map[*types.Package]bool{}) {
 			res[p.Pkg] = true
 		}
@@ -1008,6 +1013,15 @@ func (g *Global) targetsLocked(cg *callgraph.Graph, f *ssa.Function, res *writeS
 	for _, b := range f.Blocks {
 		for _, in := range b.Instrs {
 			if ci, ok := in.(ssa.CallInstruction); ok {
+				if key := funcFieldKey(ci.Common().Value); key != "" && !ci.Common().IsInvoke() {
+					if u := g.C.Units[key]; u != nil {
+						refined[ci] = true
+						if res != nil {
+							g.unitModKeys(u, nil, res)
+						}
+						continue
+					}
+				}
 				if ci.Common().IsInvoke() {
 					// an interface method with a (trusted) contract: its modifies clause is its effect
 					if u := g.C.Units[ifaceKey(ci.Common().Value.Type(), ci.Common().Method.Name())]; u != nil {
@@ -1688,6 +1702,15 @@ func (g *Global) callWrites(fn *ssa.Function, c *ssa.CallCommon) (map[string]boo
 	if mc, ok := c.Value.(*ssa.MakeClosure); ok {
 		add(mc.Fn.(*ssa.Function))
 		return res, all
+	}
+	if key := funcFieldKey(c.Value); key != "" && !c.IsInvoke() {
+		if u := g.C.Units[key]; u != nil {
+			ws := &writeSet{keys: map[string]bool{}}
+			g.mu.Lock()
+			g.unitModKeys(u, nil, ws)
+			g.mu.Unlock()
+			return ws.keys, ws.all
+		}
 	}
 	if c.IsInvoke() {
 		key := ifaceKey(c.Value.Type(), c.Method.Name())
